@@ -193,6 +193,28 @@ pub fn step(st: &mut St, toks: &[&str]) -> String {
             };
             apply(c, pat_bytes(sd, l as usize))
         }
+        // ONE request of `n` zero bytes; answer = 64-byte digest of the whole output (byte i is xored into
+        // cell (i + i/64) mod 64), for requests too long to print
+        ["chacha", "applysum", slot, len] => {
+            let Some(n) = num(len) else {
+                return "bad-op".into();
+            };
+            let Some(c) = num(slot).and_then(|s| st.ciphers.get_mut(&s)) else {
+                return "bad-op".into();
+            };
+            let mut data = vec![0u8; n as usize];
+            match guard(|| with!(c, x, x.try_apply_keystream(&mut data))) {
+                None => "panic".into(),
+                Some(Ok(())) => {
+                    let mut acc = [0u8; 64];
+                    for (i, b) in data.iter().enumerate() {
+                        acc[(i + i / 64) % 64] ^= *b;
+                    }
+                    hex_nodash(&acc)
+                }
+                Some(Err(_)) => "err".into(),
+            }
+        }
         // ONE request of `n` zero bytes (n >= 128); answer = first 64 and last 64 output bytes
         ["chacha", "bigapply", slot, len] => {
             let Some(n) = num(len) else {
